@@ -384,6 +384,26 @@ func TestC07(t *testing.T) {
 				}
 				continue
 			}
+			if !hrrMode && !readDone && rapid.IntRange(0, 15).Draw(t, "rest_with_io_copy") == 0 {
+				// from here on the relay is io.Copy(backend, conn) (a Conn's io.WriterTo, if it has
+				// one): the backend gets the rest of the stream, then the transport's error
+				var sink bytes.Buffer
+				e := guard(func() error { _, e := io.Copy(&sink, c); return e })
+				ops = append(ops, fmt.Sprintf("iocopy=%d", sink.Len()))
+				got = append(got, sink.Bytes()...)
+				for d := len(got) - sink.Len(); d < len(got); d++ {
+					if d >= len(want) || (got[d] != want[d] && !slices.Contains(vmask, d)) {
+						rp["ops"] = ops
+						ev.Violation(t, "C07", rp, "io.Copy from the Conn: bytes diverge from the expected stream at offset %d (%d delivered)", d, len(got))
+					}
+				}
+				if isPanic(e) || len(got) != len(want) || (endErr == io.EOF) != (e == nil) || (e != nil && !errors.Is(e, endErr)) {
+					rp["ops"] = ops
+					ev.Violation(t, "C07", rp, "io.Copy from the Conn delivered %d of %d bytes and returned %v, the transport ended with %v", len(got), len(want), e, endErr)
+				}
+				readDone = true
+				continue
+			}
 			bs := 1 + uniform(t, "bufsize", 70000)
 			if rapid.IntRange(0, 3).Draw(t, "smallbuf") == 0 {
 				bs = 1 + uniform(t, "bufsmall", 9)
